@@ -5,7 +5,9 @@ From Coq Require Import Reals Lra List ZArith.
 Set Warnings "-ambiguous-paths".   (* Coquelicot's Rbar coercion notice would otherwise end up in the Print Assumptions output *)
 From Coquelicot Require Import Coquelicot.
 From PV Require Import Np.NpR Gen.GenHandles Proofs.C12Handles Proofs.C12NegBinRefuted.
-From PV Require Import Base.Index Base.Sum Np.Array Model.Repr Model.C12Gcp Proofs.C12Tensor Proofs.C12TensorR Proofs.C12Mttkrps Proofs.C12Setup Proofs.C12GenTie.
+From PV Require Import Base.Index Base.Sum Np.Array Model.Repr Model.C12Gcp Proofs.C12Tensor Proofs.C12TensorR Proofs.C12Mttkrps Proofs.C12Setup Proofs.C12GenTie Proofs.C12Reshape Proofs.C12KrTie Proofs.C12Lambda Proofs.C12Weighted.
+From PV Require Model.Harness Model.C12Harness Proofs.C12LambdaZ.
+From PV Require Model.C02Dense Proofs.C02DenseProofs.
 From PV Require Gen.GenFgSetup Gen.GenKernels.
 From PV Require Import Np.NpZ.
 Import List.   (* List.nth again in front of Coquelicot's *)
@@ -139,9 +141,84 @@ Theorem C12_mttkrps_py_eq : forall (s : shape) (Y : idx -> V) (As : list (list (
   (S (min_split s) < length s)%nat /\
   mttkrps_py V v0 v1 vadd vmul s Y As R = map (mttkrp_den v0 v1 vadd vmul s Y As R) (seq 0 (length s)).
 Proof. exact (Proofs.C12Mttkrps.C12_mttkrps_py_eq V v0 v1 vadd vmul vsub vopp Vring). Qed.
+
+(* ... and the BYTE-LEVEL form of tensor.mttkrps / mttv_left / mttv_mid (Proofs/C12Reshape.v: the data array as its flat F-order
+   value list, every reshape(order="F") as index arithmetic on that list, every .dot as a sum over the contracted linear index,
+   the Khatri-Rao factors as the row lists khatrirao(reverse=True) builds) returns the per-mode MTTKRPs of the array the list
+   denotes: every well-formed array with positive sizes, factor matrices of matching sizes with R columns, EVERY split index *)
+Theorem C12_mttkrps_bytes : forall (T : dense V) (As : list (list (list V))) (R sp : nat),
+  wf_dense T -> Forall (fun d => 1 <= d)%nat (dshape T) -> fdims V R As (dshape T) -> (S sp < length (dshape T))%nat ->
+  mttkrps_b V v0 vadd vmul (ddata T) As sp =
+  map (mttkrp_den v0 v1 vadd vmul (dshape T) (den_dense v0 T) As R) (seq 0 (length (dshape T))).
+Proof. exact (Proofs.C12Reshape.C12_mttkrps_bytes V v0 v1 vadd vmul vsub vopp Vring). Qed.
+
+(* ... as called, at split_idx = min_split(self.shape) *)
+Theorem C12_mttkrps_bytes_py : forall (T : dense V) (As : list (list (list V))) (R : nat),
+  wf_dense T -> Forall (fun d => 1 <= d)%nat (dshape T) -> fdims V R As (dshape T) -> (2 <= length (dshape T))%nat ->
+  mttkrps_b V v0 vadd vmul (ddata T) As (min_split (dshape T)) =
+  map (mttkrp_den v0 v1 vadd vmul (dshape T) (den_dense v0 T) As R) (seq 0 (length (dshape T))).
+Proof. exact (Proofs.C12Reshape.C12_mttkrps_bytes_py V v0 v1 vadd vmul vsub vopp Vring). Qed.
+
+(* ---- fg_est.estimate with lambda_check: `if lambda_check and any(weights != 1): model = model.normalize(0)` (Proofs/C12Lambda.v) ----
+   estimate_helper reads only the factor matrices.  For EVERY rescaling of the factor columns (column r of factor k times cs_k[r]) whose
+   product over the modes is the component weight — what normalize(0) performs — the values it computes are those of the weighted model *)
+Theorem C12_lambda_values : forall (cs : list (list V)) (As : list (list (list V))) (lam : list V) (i : idx),
+  length cs = length As -> (forall r, (r < length lam)%nat -> cprod V v0 v1 vmul cs r = nth r lam v0) ->
+  inb (map nrows As) i = true ->
+  fac_val v0 v1 vadd vmul (scale_all V vmul cs As) (length lam) i = den_k v0 v1 vadd vmul (mkK lam As) i.
+Proof. exact (lambda_values V v0 v1 vadd vmul vsub vopp Vring). Qed.
+
+(* ... so for every sample set (repeats, any sample weights, any correction range) the estimated objective is the weighted sample sum
+   of the loss at the WEIGHTED model's values *)
+Theorem C12_lambda_estimate : forall (f : V -> V -> V) (cs : list (list V)) (As : list (list (list V))) (lam : list V),
+  length cs = length As -> (forall r, (r < length lam)%nat -> cprod V v0 v1 vmul cs r = nth r lam v0) ->
+  forall (subs : list idx) (xs ws : list V) (crng : list nat),
+  Forall (fun i => inb (kshape (mkK lam As)) i = true) subs ->
+  est_F v0 v1 vadd vmul vsub f (scale_all V vmul cs As) (length lam) subs xs ws crng =
+  sum_over v0 vadd (seq 0 (length subs)) (fun q =>
+    let m := den_k v0 v1 vadd vmul (mkK lam As) (nth q subs nil) in
+    vmul (nth q ws v0) (if inl q crng then vsub (f (nth q xs v0) m) (f v0 m) else f (nth q xs v0) m)).
+Proof. exact (lambda_est_F V v0 v1 vadd vmul vsub vopp Vring). Qed.
+
+(* ... on every subscript once with unit sample weights it is the exact objective of the weighted model, and the gradient matrices are
+   the MTTKRPs of the weighted model's element-wise derivative array with the rescaled factors *)
+Theorem C12_lambda_exact : forall (f g : V -> V -> V) (cs : list (list V)) (As : list (list (list V))) (lam : list V),
+  length cs = length As -> (forall r, (r < length lam)%nat -> cprod V v0 v1 vmul cs r = nth r lam v0) ->
+  forall X : dense V, wf_dense X -> dshape X = map nrows As ->
+  est_F v0 v1 vadd vmul vsub f (scale_all V vmul cs As) (length lam) (allsubs (dshape X)) (ddata X) (repeat v1 (size (dshape X))) nil =
+    eval_F v0 v1 vadd vmul f (mkK lam As) X None /\
+  est_G v0 v1 vadd vmul vsub g (scale_all V vmul cs As) (length lam) (allsubs (dshape X)) (ddata X) (repeat v1 (size (dshape X))) nil
+        (dshape X) =
+    map (mttkrp_den v0 v1 vadd vmul (dshape X) (eval_Y v0 v1 vadd vmul g (mkK lam As) X None) (scale_all V vmul cs As) (length lam))
+        (seq 0 (length (dshape X))).
+Proof.
+  intros f g cs As lam Hc Hp X HX Hs.
+  exact (conj (lambda_exact_F V v0 v1 vadd vmul vsub vopp Vring f cs As lam Hc Hp X HX Hs)
+              (lambda_exact_G V v0 v1 vadd vmul vsub vopp Vring g cs As lam Hc Hp X HX Hs)).
+Qed.
+
+(* ... which are the MTTKRPs with the original factors times the complementary column factors (prod over l <> k of cs_l[r]) *)
+Theorem C12_lambda_mttkrp_scale : forall (cs : list (list V)) (As : list (list (list V))) (lam : list V),
+  length cs = length As ->
+  forall (s : shape) (Y : idx -> V) (k j r : nat), length s = length As -> (j < nth k s 0)%nat -> (r < length lam)%nat ->
+  mget v0 (mttkrp_den v0 v1 vadd vmul s Y (scale_all V vmul cs As) (length lam) k) j r =
+  vmul (mget v0 (mttkrp_den v0 v1 vadd vmul s Y As (length lam) k) j r) (cskip V v0 v1 vmul cs r k).
+Proof. exact (mttkrp_scale V v0 v1 vadd vmul vsub vopp Vring). Qed.
+
+(* absorbing the weights into mode 0 (the exact instance the executable harness uses) is such a rescaling *)
+Theorem C12_lambda_absorb : forall (lam : list V) (N r : nat), (1 <= N)%nat -> (r < length lam)%nat ->
+  cprod V v0 v1 vmul (absorb_cs V v1 lam N) r = nth r lam v0.
+Proof. exact (absorb_cs_prod V v0 v1 vadd vmul vsub vopp Vring). Qed.
 End C12_T2.
+Print Assumptions C12_lambda_values.
+Print Assumptions C12_lambda_estimate.
+Print Assumptions C12_lambda_exact.
+Print Assumptions C12_lambda_mttkrp_scale.
+Print Assumptions C12_lambda_absorb.
 Print Assumptions C12_mttkrps_eq.
 Print Assumptions C12_mttkrps_py_eq.
+Print Assumptions C12_mttkrps_bytes.
+Print Assumptions C12_mttkrps_bytes_py.
 Print Assumptions C12_objective.
 Print Assumptions C12_multilinear.
 Print Assumptions C12_adjoint.
@@ -185,6 +262,49 @@ Theorem C12_gradient_poisson : forall (K : ktensor R) (X : dense R) (w : option 
             (mget 0 (nth k (eval_G 0 1 Rplus Rmult poisson_grad K X w) nil) j r).
 Proof. intros K X w k j r. exact (eval_gradient_lb 0 poisson poisson_grad K X w k j r (fun x m H => poisson_deriv x m H)). Qed.
 Print Assumptions C12_gradient_poisson.
+
+(* ---- finding C12-W1 (open, known): models WITH component weights ------------------------------------------------------------
+   for every weight vector the exact partial derivative of the objective in entry (j, r) of factor k is
+   weights[r] * (the matrix evaluate returns)[k][j, r] ... *)
+Theorem C12_gradient_weighted : forall (lb : R) (f g : R -> R -> R) (K : ktensor R) (X : dense R) (w : option (dense R)) (k j r : nat),
+  (forall x m, lb <= m -> is_derive (fun m => f x m) m (g x m)) ->
+  (forall i, inb (kshape K) i = true -> lb <= den_k 0 1 Rplus Rmult K i) ->
+  wf_k K -> (k < length (kfactors K))%nat -> (j < nrows (nth k (kfactors K) nil))%nat -> (r < krank K)%nat ->
+  dshape X = kshape K ->
+  is_derive (fun t => eval_F 0 1 Rplus Rmult f (kset R K k (mset (nth k (kfactors K) nil) j r t)) X w)
+            (mget 0 (nth k (kfactors K) nil) j r)
+            (nth r (kweights K) 0 * mget 0 (nth k (eval_G 0 1 Rplus Rmult g K X w) nil) j r).
+Proof. exact eval_gradient_weighted. Qed.
+Print Assumptions C12_gradient_weighted.
+
+(* ... so the returned entry itself (tensor(Y).mttkrps(model.factor_matrices), no weights) is NOT the partial derivative whenever
+   the component's weight is not 1 and the entry is not 0: the property's gradient clause fails for fg.evaluate on such models *)
+Theorem C12_gradient_unweighted_refuted : forall (lb : R) (f g : R -> R -> R) (K : ktensor R) (X : dense R) (w : option (dense R)) (k j r : nat),
+  (forall x m, lb <= m -> is_derive (fun m => f x m) m (g x m)) ->
+  (forall i, inb (kshape K) i = true -> lb <= den_k 0 1 Rplus Rmult K i) ->
+  wf_k K -> (k < length (kfactors K))%nat -> (j < nrows (nth k (kfactors K) nil))%nat -> (r < krank K)%nat ->
+  dshape X = kshape K ->
+  nth r (kweights K) 0 <> 1 ->
+  mget 0 (nth k (eval_G 0 1 Rplus Rmult g K X w) nil) j r <> 0 ->
+  ~ is_derive (fun t => eval_F 0 1 Rplus Rmult f (kset R K k (mset (nth k (kfactors K) nil) j r t)) X w)
+              (mget 0 (nth k (kfactors K) nil) j r)
+              (mget 0 (nth k (eval_G 0 1 Rplus Rmult g K X w) nil) j r).
+Proof. exact eval_G_unweighted_refuted. Qed.
+Print Assumptions C12_gradient_unweighted_refuted.
+
+(* the witness of the finding: weight 2, factors (1,2) x (1,1), zero data, Gaussian loss: returned 8, derivative 16 *)
+Theorem C12_gradient_unweighted_witness :
+  let K := mkK [2] [ [[1]; [2]]; [[1]; [1]] ] in
+  let X := mkDense [2; 2]%nat [0; 0; 0; 0] in
+  let f := fun x m : R => (m - x) * (m - x) in
+  let g := fun x m : R => 2 * (m - x) in
+  ~ is_derive (fun t => eval_F 0 1 Rplus Rmult f (kset R K 0 (mset (nth 0 (kfactors K) nil) 0 0 t)) X None)
+              (mget 0 (nth 0 (kfactors K) nil) 0 0)
+              (mget 0 (nth 0 (eval_G 0 1 Rplus Rmult g K X None) nil) 0 0)
+  /\ is_derive (fun t => eval_F 0 1 Rplus Rmult f (kset R K 0 (mset (nth 0 (kfactors K) nil) 0 0 t)) X None)
+              (mget 0 (nth 0 (kfactors K) nil) 0 0) 16.
+Proof. exact eval_G_unweighted_refuted_witness. Qed.
+Print Assumptions C12_gradient_unweighted_witness.
 
 (* ---- the objective table of fg_setup.setup (hand model Proofs/C12Setup.v, tied by correspondence over all ten objectives) ---- *)
 (* on every data value the objective's data check lets through and every model value not below the lower bound setup
@@ -243,6 +363,23 @@ Theorem C12_min_split_generated : forall s : shape, s <> nil -> Forall (fun d =>
   GenKernels.min_split (map Z.of_nat s) = NpZ.Ok (Z.of_nat (min_split s)).
 Proof. exact min_split_is_generated. Qed.
 Print Assumptions C12_min_split_generated.
+
+(* the Khatri-Rao row lists of the byte-level mttkrps (kr_rev) are what the GENERATED pyttb.khatrirao returns for reverse=True *)
+Theorem C12_khatrirao_generated : forall (R : nat) (Bs : list (list (list Z))),
+  Bs <> nil -> (1 <= R)%nat -> Forall (fun B => B <> nil /\ C02DenseProofs.wf_cols Z R B) Bs ->
+  GenKernels.khatrirao Bs true = NpZ.Ok (C02Dense.kr_rev Z.mul Bs).
+Proof. exact khatrirao_generated_kr_rev. Qed.
+Print Assumptions C12_khatrirao_generated.
+
+(* the executable harness model of estimate(lambda_check=True) (weights absorbed into mode 0 when some weight is not 1) is an instance of
+   C12_lambda_exact: on every subscript once with unit sample weights it is the exact objective of the WEIGHTED model — the identity the
+   correspondence stream checks numerically against pyttb (op estimate_lam, mode full) *)
+Theorem C12_lambda_harness_exact : forall (id : nat) (lam : list Z) (As : list (list (list Z))) (X : dense Z),
+  (1 <= length As)%nat -> C12LambdaZ.rows_len (length lam) As -> wf_dense X -> dshape X = map nrows As ->
+  C12Harness.zest_lam_F id true lam As (length lam) (allsubs (dshape X)) (ddata X) (repeat 1%Z (size (dshape X))) nil =
+  C12Harness.zeval_F id (mkK lam As) X None.
+Proof. exact C12LambdaZ.zest_lam_exact. Qed.
+Print Assumptions C12_lambda_harness_exact.
 
 (* non-vacuity: the domain hypotheses are satisfiable and the derivative values are not trivially 0 *)
 Example C12_example_poisson : is_derive (fun m => poisson 3 m) 2 (1 - 3 / (2 + EPS)).
